@@ -36,6 +36,7 @@ const (
 	EvEnter = "enter"
 	EvExit  = "exit"
 	EvCB    = "cb"
+	EvSide  = "side" // a registration made from inside a user function body
 )
 
 type Event struct {
@@ -51,6 +52,9 @@ type Event struct {
 	CBErr     error
 	CBRuntime time.Duration
 	CBPanics  bool // the callback panicked after logging this event
+	// EvSide: Fn = id of the constructor provided, SideScope, SideErr
+	SideScope int
+	SideErr   error
 }
 
 // CBPanicVal is what a panicking callback panics with.
@@ -444,6 +448,11 @@ func (rt *RT) call(f *Fn, args []reflect.Value) []reflect.Value {
 			}
 		case "scope":
 			_ = sc.Scope("side")
+		case "provide-key":
+			if f.SideFn != nil && exec == 0 {
+				err := sc.Provide(rt.Materialise(f.SideFn))
+				rt.Log = append(rt.Log, Event{Kind: EvSide, Op: rt.curOp, Fn: f.SideFn.ID, SideScope: f.SideS, SideErr: err})
+			}
 		case "provide":
 			_ = sc.Provide(func() *TX { return nil })
 		case "decorate":
